@@ -9,6 +9,8 @@ from harness import clientlib as cl, reqcommon, isospec, argspace
 from harness.callreg import invocations
 from harness.calls_ext import oi
 
+WIDE = 200000        # thorough tier: histories of the wide correspondence stream (widegen.py), judged by the model and the generic rule
+WIDE_QUICK = 2000
 PROP = 'C14'
 EXHAUSTIVE = False
 RULE = ('read/write_memory_by_address, request_download/upload, dynamically_define_did(by memory): format grid 9x9x9x9 (sampled in '
